@@ -1,5 +1,6 @@
 from dataclasses import dataclass, field
 from functools import cached_property, partial, partialmethod
+import re
 
 
 @dataclass(init=False)
@@ -26,6 +27,7 @@ class TapeRecorder:
     def __getattr__(self, basis_blade):
         if not re.match(r'^e[0-9a-fA-F]*$', basis_blade):
             raise AttributeError(f'{self.__class__.__name__} object has no attribute or basis blade {basis_blade}')
+        basis_blade, swaps = self.algebra._blade2canon(basis_blade)
         if basis_blade not in self.algebra.canon2bin:
             return self.__class__(
                 algebra=self.algebra,
@@ -41,10 +43,11 @@ class TapeRecorder:
                 keys=(0,)
             )
         else:
+            # Like MultiVector.__getattr__ this is the (scalar) coefficient, negated for odd permutations of the blade.
             return self.__class__(
                 algebra=self.algebra,
-                expr=f"({self.expr}[{idx}],)",
-                keys=(self.keys()[idx],)
+                expr=f"({self.expr}[{idx}],)" if swaps % 2 == 0 else f"(-{self.expr}[{idx}],)",
+                keys=(0,)
             )
 
     def grade(self, *grades):
